@@ -47,7 +47,7 @@ func checkC17(c *core.Check) {
 			si++
 			a := &aspec.ASpec{Base: aspec.Base{Form: "servers", Segs: []string{"api"}}, SpecName: "openapi.yaml",
 				Flags: aspec.Flags{APIHandler: true, DoNotEdit: true, Cors: corsFlag}, Security: global,
-				Schemes: []aspec.Scheme{{Key: "A", Kind: "bearer"}, {Key: "B", Kind: "apiKeyHeader", Name: "x-key-b"}, {Key: "Q", Kind: "apiKeyQuery", Name: "kq"}}}
+				Schemes: []aspec.Scheme{{Key: "A", Kind: "bearer", Spell: []string{"", "Bearer", "BEARER"}[si%3]}, {Key: "B", Kind: "apiKeyHeader", Name: "x-key-b"}, {Key: "Q", Kind: "apiKeyQuery", Name: "kq"}}}
 			var paths []string
 			for k := 0; k < nItems; k++ {
 				// every non-empty method subset in turn, everything else seeded
